@@ -635,7 +635,7 @@ func (g *Gen) linkLine(s *gsess) string {
 		if g.P.WildServiceNicks && g.R.Intn(4) == 0 {
 			n = g.anyNick()
 		}
-		if g.R.Intn(12) == 0 {
+		if g.R.Intn(12) == 0 && !strings.ContainsAny(n, " ") && n != "" {
 			return assemble("", "NICK", []string{n}, false, "")
 		}
 		if n == "" {
